@@ -64,6 +64,11 @@ class Recorder(object):
     self.tid = tid
     self.events = []
     self.raw = []          # parallel to events: raw python-side info (replies) for the driver
+    self.full = []         # parallel to events: the full user actions (None for peer events)
+    self.keep_states = False
+    self.states = []       # parallel to events when keep_states: projected state after the event
+    self.colfacts = []     # parallel to events when keep_states: {table: {col: [type, isFormula, formula]}}
+    self.peers = []        # parallel to events when keep_states: peer state (peer events) or None
     self.state = {}
     self.schema = {}
     self.init_state = None
@@ -117,12 +122,17 @@ class Recorder(object):
       ev["schema"] = new_schema
       self.schema = new_schema
     self.events.append(ev)
+    if self.keep_states:
+      self.states.append(self.state)
+      self.peers.append(None)
+      self.colfacts.append(adapter.schema_record(self.eng))
     return ev
 
   def bundle(self, uas, tag="ua", of=0, clause="", user=None, note=None):
     """Apply one bundle; returns (event, reply or None, exception or None)."""
     ev = {"k": "B", "tag": tag, "of": of, "clause": clause, "stored": [], "direct": [], "undo": [],
           "ret": "", "uas": note if note is not None else [u[0] for u in uas]}
+    self.full.append(uas)
     try:
       reply = adapter.apply(self.eng, uas, user)
     except Exception as e:    # pylint: disable=broad-except
@@ -138,6 +148,35 @@ class Recorder(object):
     self._finish(ev)
     self.raw.append(reply)
     return ev, reply, None
+
+  def peer_event(self, tag, clause, qclause="", peer_state=None, stored=(), only_formula=False,
+                 note=None):
+    """
+    An event that compares a sibling engine with this one and does not advance the document:
+    Reopen (C07), Rebuild (C05), a peer process (C30).  `delta` = the peer's tables that differ.
+    """
+    ev = {"k": "P", "tag": tag, "of": 0, "clause": clause, "qclause": qclause,
+          "stored": [encode_action(a, self.tt) for a in stored], "direct": [], "undo": [],
+          "ret": "", "uas": note or [tag]}
+    tables = {t: v for t, v in peer_state.items() if self.state.get(t) != v}
+    removed = [t for t in self.state if t not in peer_state]
+    ev["delta"] = {"tables": tables, "removed": removed}
+    self.events.append(ev)
+    self.raw.append({"peer": tag})
+    self.full.append(None)
+    if self.keep_states:
+      self.states.append(self.state)
+      self.peers.append(peer_state)
+      self.colfacts.append(adapter.schema_record(self.eng))
+    return ev
+
+  def reopen_event(self):
+    eng2, reply = adapter.reopen(self.eng)
+    return self.peer_event("reopen", "C07.same", "C07.quiet", self.project(eng2), reply["stored"])
+
+  def rebuild_event(self):
+    eng2 = adapter.rebuild(self.eng)
+    return self.peer_event("rebuild", "C05.same", "", self.project(eng2))
 
   def trace(self):
     return {"tid": self.tid, "init": self.init_state, "schema": self.init_schema, "events": self.events}
